@@ -7,6 +7,8 @@ import Flowjaxv.Proofs.NetLawful
 import Flowjaxv.Proofs.Flows
 import Flowjaxv.Proofs.JaxTransforms
 import Flowjaxv.Proofs.BnafGen
+import Flowjaxv.Proofs.TriangularGen
+import Flowjaxv.Proofs.PermGen
 /-!
 # C01 — every bijection is invertible: inverse undoes transform, both ways
 
@@ -663,5 +665,80 @@ theorem gen_bnaf_instance (cl : Option (Bw.CondLinear ℝ)) (ls : List (Bw.Linea
 
 end BnafGen
 /-! ## ===== END BnafGen ===== -/
+section TriangularGen
+/-! ## TriangularAffine REGENERATED (`Gen/TriangularGen.lean`, translator `py2tri.py`, sheet `targets_triangular.py`)
+
+`__init__` (exception-valued), the nested `_to_triangular`, and the four methods are generated from `flowjax/bijections/affine.py` on
+every run; `solve_triangular` is the hand primitive `TriPrims.solveTriangular` = the forward / back substitution of
+`Model/Triangular.lean` (proved to solve above: `triangular_solve_lower/upper`); `unwrap` of the stored object is `TriGen.unwrap`. -/
+
+/-- **generated = hand model**: the four generated methods are the hand model's, for every dimension, every matrix (no shape
+hypothesis), every `loc`, both values of `lower`. -/
+theorem gen_triangular_eq_model {C : Type} (t : TriangularAffine ℝ) :
+    (TriGen.toBij t : Bij (List ℝ) C ℝ) = (TriGenPf.toModel t).toBij :=
+  TriGenPf.gen_toBij_eq t
+
+/-- `triangular_lawful` on the GENERATED methods: `triangular` lower (resp. upper) triangular `n × n` as `lower` says, non-zero
+diagonal of either sign, `loc ∈ ℝⁿ` — a lawful bijection of `ℝⁿ`. -/
+theorem gen_triangular_lawful {C : Type} {n : ℕ} {t : TriangularAffine ℝ} (h : TriPf.TriWF n (TriGenPf.toModel t)) :
+    (TriGen.toBij t : Bij (List ℝ) C ℝ).Lawful {x | x.length = n} {y | y.length = n} := by
+  rw [TriGenPf.gen_toBij_eq]; exact TriPf.triangular_lawful h
+
+/-- … from the stored raw arrays through the generated `_to_triangular` and `BijectionReparam.unwrap`: every raw diagonal value -/
+theorem gen_triangular_of_raw_lawful {C : Type} {n : ℕ} (lower : Bool) (raw : List ℝ) (arr : List (List ℝ))
+    (loc : List ℝ) (hsq : TriPf.Square n arr) (hr : raw.length = n) (hl : loc.length = n) :
+    (TriGen.toBij (TriGen.unwrap (TriGen.ofRaw lower raw arr loc)) : Bij (List ℝ) C ℝ).Lawful
+      {x | x.length = n} {y | y.length = n} := by
+  apply gen_triangular_lawful
+  rw [TriGenPf.gen_ofRaw_eq lower raw arr loc (TriGenPf.square_rows hsq hr)]
+  exact TriPf.ofRaw_wf lower raw arr loc hsq hr hl
+
+/-- … and for EVERY call the generated constructor accepts (any square matrix — the other triangle is ignored, the diagonal is
+reparameterised through SoftPlus — and a `loc` of size `n` or 1): the unwrapped object is a lawful bijection of `ℝⁿ`. -/
+theorem gen_triangular_init_lawful {C : Type} {n : ℕ} (loc : List ℝ) (m : List (List ℝ)) (lower : Bool)
+    (hsq : TriPf.Square n m) {s : TriangularAffineStored ℝ} (h : TriangularAffine.init loc (.mat m) lower = .ok s) :
+    (TriGen.toBij (TriGen.unwrap s) : Bij (List ℝ) C ℝ).Lawful {x | x.length = n} {y | y.length = n} :=
+  gen_triangular_lawful (TriGenPf.gen_init_wf loc m lower hsq h)
+
+/-- non-vacuity: an upper-triangular 2 × 2 matrix with a negative diagonal entry, on the generated record -/
+theorem gen_triangular_instance :
+    ((TriGen.toBij { triangular := [[2, 1], [0, -3]], loc := [1, 5], lower := false } : Bij (List ℝ) Unit ℝ)).Lawful
+      {x | x.length = 2} {y | y.length = 2} := by
+  rw [TriGenPf.gen_toBij_eq]; exact triangular_instance
+
+end TriangularGen
+
+section PermGen
+/-! ## Permute REGENERATED (`Gen/PermGen.lean`): lawfulness of the generated methods -/
+open PermPrims Gen.PermGen
+
+/-- the generated `Permute` of an accepted permutation array (any rank ≥ 1, any shape) is a lawful bijection of the arrays of that
+shape: both maps keep the shape and the size, both round trips are the identity, and `…_and_log_det` returns the plain point with
+log-det `0`. -/
+theorem gen_permute_lawful (p : IArr) (hwf : p.data.length = prod p.shape) (hne : p.shape ≠ []) {s : Permute}
+    (h : Permute.init p = .ok s) (x : FArr ℝ) (hx : x.shape = p.shape) (hxl : x.data.length = p.data.length) :
+    (s.transform x).shape = p.shape ∧ (s.transform x).data.length = p.data.length ∧
+    (s.inverse x).shape = p.shape ∧ (s.inverse x).data.length = p.data.length ∧
+    (s.inverse (s.transform x)).data = x.data ∧ (s.transform (s.inverse x)).data = x.data ∧
+    s.transform_and_log_det x = (s.transform x, 0) ∧ s.inverse_and_log_det x = (s.inverse x, 0) := by
+  obtain ⟨hP, _, hf, hfs, hi, his, h1, h2⟩ := PermGenPf.gen_permute_eq_model p hwf hne h x hx
+  obtain ⟨_, _, _, _, hi', _⟩ := PermGenPf.gen_permute_eq_model p hwf hne h (s.transform x) hfs
+  obtain ⟨_, _, hf', _⟩ := PermGenPf.gen_permute_eq_model p hwf hne h (s.inverse x) his
+  have hl : x.data.length = (p.data.map Int.toNat).length := by simpa using hxl
+  refine ⟨hfs, ?_, his, ?_, ?_, ?_, h1, h2⟩
+  · rw [hf]; simp [PermModel.fwd]
+  · rw [hi]; simp [PermModel.inv, PermModel.fwd, PermModel.argsort]
+  · rw [hi', hf]; exact PermModel.inv_fwd _ hP _ hl
+  · rw [hf', hi]; exact PermModel.fwd_inv _ hP _ hl
+
+/-- non-vacuity: a 2 × 3 permutation array -/
+theorem gen_permute_lawful_instance :
+    ∃ s, Permute.init ⟨[2, 3], [5, 0, 3, 1, 4, 2]⟩ = .ok s ∧
+      (s.inverse (s.transform ⟨[2, 3], [1, 2, 3, 4, 5, (6 : ℝ)]⟩)).data = [1, 2, 3, 4, 5, 6] := by
+  obtain ⟨s, hs⟩ := (PermGenPf.gen_init_accepts_iff ⟨[2, 3], [5, 0, 3, 1, 4, 2]⟩).mpr
+    ((ParamsPf.permuteRejects_iff _).mpr (by decide))
+  exact ⟨s, hs, (gen_permute_lawful _ (by decide) (by decide) hs ⟨[2, 3], [1, 2, 3, 4, 5, 6]⟩ rfl rfl).2.2.2.2.1⟩
+
+end PermGen
 
 end C01
